@@ -45,6 +45,7 @@ struct Out {
     asserts: usize,
     assert_accepted: usize,
     graphs: usize,
+    action_lists: usize,
 }
 
 impl Out {
@@ -717,6 +718,64 @@ fn handle_graphs(o: &mut Out) {
     }
 }
 
+
+// ------------------------------------------------------------------------------ action lists
+/// UPDATE takes a *list* of actions (`update_action+`), and nothing forbids a kind from being
+/// repeated.  Every pair and triple of the seven action kinds (the same kind repeated included),
+/// with the field under test in every position of the list, for seven target forms: as text
+/// through parse_kip, and as injected trees (sentinel replaced, so engine-owned names are reached
+/// too) through validate_command.
+const ACTION_TARGETS: &[(&str, &str, &str)] = &[
+    ("param", ":t", ""),
+    ("where-CONCEPT", "?t", "WHERE { ?t CONCEPT {id: \"X-1\"} }"),
+    ("where-ASSERTION", "?t", "WHERE { ?t ASSERTION {id: \"X-1\"} }"),
+    ("where-EVIDENCE", "?t", "WHERE { ?t EVIDENCE {id: \"X-1\"} }"),
+    ("where-PROPOSITION", "?t", "WHERE { ?t PROPOSITION (:a, \"p\", :b) }"),
+    ("where-ACTIVITY", "?t", "WHERE { ?t ACTIVITY {id: \"X-1\"} }"),
+    ("not-concept-then-ASSERTION", "?t", "WHERE { NOT { ?t CONCEPT {id: \"X-1\"} } ?t ASSERTION {id: \"X-1\"} }"),
+];
+const ACTION_NAMES: &[&str] = &["governance", "confidence", "payload", "subject", "note"];
+
+fn action_lists(o: &mut Out) {
+    let mut seqs: Vec<Vec<usize>> = Vec::new();
+    for a in 0..BLOCKS.len() {
+        for b in 0..BLOCKS.len() {
+            seqs.push(vec![a, b]);
+            for c in 0..BLOCKS.len() {
+                seqs.push(vec![a, b, c]);
+            }
+        }
+    }
+    for (tlabel, target, wh) in ACTION_TARGETS {
+        for seq in &seqs {
+            for pos in 0..seq.len() {
+                let render = |key: &str| -> String {
+                    let acts: Vec<String> = seq.iter().enumerate().map(|(i, b)| {
+                        let k = if i == pos { key.to_string() } else { format!("k{i}") };
+                        let kq = if BLOCKS[*b].contains("STRUCTURAL") { serde_json::to_string(&k).unwrap() } else { k };
+                        block_text(BLOCKS[*b], &kq, if i % 2 == 0 { "1" } else { ":p" })
+                    }).collect();
+                    format!("UPDATE {target} {} {wh}", acts.join(" "))
+                };
+                let fam = |name: &str| format!("actions[{tlabel}]/{}/p{pos}/{name}", seq.len());
+                o.action_lists += 1;
+                // tree path: the sentinel text, when accepted, seeds one injected tree per name
+                if let Ok(cmd) = parse_kip(&render(SENTINEL)) {
+                    let seed = serde_json::to_value(&cmd).unwrap();
+                    for name in ACTION_NAMES {
+                        let v = replace_str(&seed, SENTINEL, name);
+                        o.inject(&fam(name), &format!("{} (tree, key injected)", render(name)), &v, true);
+                    }
+                }
+                // text path
+                for name in ACTION_NAMES {
+                    o.text(&fam(name), &render(name), true);
+                }
+            }
+        }
+    }
+}
+
 // ------------------------------------------------------------------------------ ASSERT
 fn asserts(o: &mut Out) {
     let by = [Some(":alice"), Some("?who"), Some("\"actor:1\""), None];
@@ -857,7 +916,7 @@ fn c16(args: &[String]) {
         w: std::io::BufWriter::new(std::fs::File::create(&out).expect("create out")),
         seen: BTreeSet::new(), trees: 0, accepted: BTreeMap::new(), rejected: BTreeMap::new(), failures: Vec::new(), failure_classes: BTreeMap::new(),
         oracle_failures: 0, texts: 0, text_accepted: 0, text_errors: BTreeMap::new(), families: BTreeMap::new(),
-        inject_total: 0, asserts: 0, assert_accepted: 0, graphs: 0,
+        inject_total: 0, asserts: 0, assert_accepted: 0, graphs: 0, action_lists: 0,
     };
     std::panic::set_hook(Box::new(|_| {}));
     let mut seeds: Vec<(String, Value)> = Vec::new();
@@ -866,6 +925,7 @@ fn c16(args: &[String]) {
     guards(&mut o);
     injected(&mut o, &seeds);
     handle_graphs(&mut o);
+    action_lists(&mut o);
     plans(&mut o, &mut rng, n_plans);
     let pool: Vec<Value> = seeds.iter().map(|(_, v)| v.clone()).collect();
     mutate_trees(&mut o, &mut rng, &pool, n_mut);
@@ -876,7 +936,7 @@ fn c16(args: &[String]) {
         "injected": o.inject_total, "trees_written": o.trees,
         "accepted": o.accepted, "rejected": o.rejected,
         "families": o.families.len(), "seeds": seeds.len(),
-        "asserts": o.asserts, "assert_accepted": o.assert_accepted, "graph_plans": o.graphs,
+        "asserts": o.asserts, "assert_accepted": o.assert_accepted, "graph_plans": o.graphs, "action_lists": o.action_lists,
         "oracle_failures": o.oracle_failures, "failure_classes": o.failure_classes, "failures": o.failures,
         "evaluations": o.texts + o.inject_total + o.asserts,
     });
